@@ -106,9 +106,16 @@ type Node struct {
 	Data     *Data
 	Packed   bool
 	Subset   bool
+	Sel      *Selection // SUBSET block: the selection and the values h5dump printed for it
 	Layout   *Layout
 	HasFilt  bool
 	Target   string
+}
+
+// Selection is the hyperslab of a SUBSET block.
+type Selection struct {
+	Start, Stride, Count, Block []uint64
+	Data                        *Data
 }
 
 type Block struct {
@@ -504,7 +511,20 @@ func (p *parser) datasetBody(d *Node) {
 			p.restOfLine()
 		case "SUBSET":
 			d.Subset = true
-			p.skipBalanced()
+			st := p.i
+			func() {
+				defer func() {
+					if r := recover(); r != nil {
+						if _, isPE := r.(parseErr); !isPE {
+							panic(r)
+						}
+						d.Sel = nil // not understood: skip the block as before
+						p.i = st
+						p.skipBalanced()
+					}
+				}()
+				d.Sel = p.subset()
+			}()
 		case "STORAGE_LAYOUT":
 			d.Layout = p.layout()
 		case "FILTERS":
@@ -523,6 +543,48 @@ func (p *parser) datasetBody(d *Node) {
 			}
 		}
 	}
+}
+
+// subset parses "{ START ( .. ); STRIDE ( .. ); COUNT ( .. ); BLOCK ( .. ); DATA { .. } }".
+func (p *parser) subset() *Selection {
+	p.expect('{')
+	sel := &Selection{}
+	for p.peek() != '}' {
+		if p.eof() {
+			p.fail("unexpected end of file in SUBSET")
+		}
+		w := p.word()
+		switch w {
+		case "START", "STRIDE", "COUNT", "BLOCK":
+			p.expect('(')
+			end := strings.IndexByte(p.s[p.i:], ')')
+			if end < 0 {
+				p.fail("unterminated tuple in SUBSET")
+			}
+			dims, ok := parseDims(p.s[p.i : p.i+end])
+			if !ok {
+				p.fail("tuple in SUBSET not understood")
+			}
+			p.i += end + 1
+			p.expect(';')
+			switch w {
+			case "START":
+				sel.Start = dims
+			case "STRIDE":
+				sel.Stride = dims
+			case "COUNT":
+				sel.Count = dims
+			case "BLOCK":
+				sel.Block = dims
+			}
+		case "DATA":
+			sel.Data = p.data()
+		default:
+			p.fail("unknown SUBSET item %q", w)
+		}
+	}
+	p.expect('}')
+	return sel
 }
 
 var chunkRE = regexp.MustCompile(`^\{\s*CHUNKED\s*\(\s*([0-9, ]+)\)`)
